@@ -64,7 +64,9 @@ impl<T> SocksRequest<T> {
         let dport = socket.read_u16().await.context("read port")?;
         let dst = socket.read_u32().await.context("read dst")?;
         let client_id = read_null_terminated_string(socket).await?;
-        let target = if dst < 0x100 {
+        // SOCKS4a marks a request that carries a name with the invalid address 0.0.0.x, x != 0;
+        // 0.0.0.0 itself is an ordinary (if useless) IPv4 destination
+        let target = if dst != 0 && dst < 0x100 {
             let domain = read_null_terminated_string(socket).await?;
             TargetAddress::DomainPort(domain, dport)
         } else {
